@@ -81,6 +81,8 @@ class TermGen:
         self.p_svar, self.p_fresh, self.p_redex = p_svar, p_fresh, p_redex
         self.ctx = []          # free atoms in scope
         self.type_clash = type_clash
+        self.clash_bias = 0.0
+        self.bound_names = []
         self.overload = overload or {}   # name -> list of allowed instantiations of its pv (list of dicts)
         self.w = {'atom': 3, 'const': 4, 'app': 2, 'abs': 3, 'redex': 1}
         if weights:
@@ -211,7 +213,16 @@ class TermGen:
             return ('comb', f, self.gen(aT, depth - 1, bd))
         if c == 'abs':
             A, R = T[2]
-            return ('abs', rng.choice(self.names), A, self.gen(R, depth - 1, (A,) + bd))
+            nm = rng.choice(self.names)
+            used = [a[1] for a in self.ctx] + self.bound_names
+            if used and rng.random() < self.clash_bias:
+                nm = rng.choice(used)
+                if rng.random() < 0.25:
+                    nm = nm + '1'          # the variant name the printer would pick
+            self.bound_names.append(nm)
+            body = self.gen(R, depth - 1, (A,) + bd)
+            self.bound_names.pop()
+            return ('abs', nm, A, body)
         if c == 'redex':
             A = self.rand_type()
             body = self.gen(T, depth - 1, (A,) + bd)
